@@ -401,6 +401,8 @@ var c01HOs = []c01HO{
 	{"(funcall (compose (lambda (r) (list 'f r)) (lambda (u &optional v) (list u v))) 1)", "'('f '(1 ()))", "", "", ""},
 	{"(funcall (compose (lambda (r) (list 'f r)) (lambda (u &rest v) (list u v))) 1 2 3)", "'('f '(1 '(2 3)))", "", "", ""},
 	{"(funcall (compose identity (lambda (&key k) k)) :k 1)", "1", "", "C01-compose-key-parameters", "error:error"},
+	{"(handler-bind ((condition (lambda (c &rest a) 'refused))) (compose car 'no-such-function))", "'refused", "", "", ""},
+	{"(handler-bind ((condition (lambda (c &rest a) 'refused))) (compose 'no-such-function car))", "'refused", "", "", ""},
 }
 
 func VerifC01_EHigher() {
